@@ -309,3 +309,97 @@ Definition w_iface : iface :=
      i_errors := [{| e_name := "NotOK"; e_fields := [fld "reasonCode" TInt; fld "yield" TInt]; e_comments := [] |};
                   {| e_name := "E2BIG"; e_fields := []; e_comments := [] |}];
      i_comments := [] |}.
+
+(* ------------------------------------------------------------------ custom types never capture an item
+   the emitted module refers to without a path (C15.prelude_type_name_capture, repaired).
+   `emitted_unqualified_uses` is read off the string literals of codegen.rs on every run (`Name<`,
+   `use serde::{..}`, `"Name".to_string()`); `generator_unqualified` is the list inside
+   fn is_used_unqualified.  The two obligations computed here are the tie: the generator's list covers
+   everything the generator emits without a path, and none of those names ends in `_`. *)
+Fixpoint ends_underscore (s : string) : bool :=
+  match s with
+  | EmptyString => false
+  | String c EmptyString => Ascii.eqb c "_"%char
+  | String _ r => ends_underscore r
+  end.
+
+Lemma ends_underscore_app s : ends_underscore (s ++ "_") = true.
+Proof.
+  induction s as [|c s IH]; [reflexivity|].
+  cbn [append ends_underscore]. destruct (s ++ "_")%string eqn:E.
+  - destruct s; discriminate.
+  - exact IH.
+Qed.
+
+Lemma emitted_uses_covered :
+  forallb (fun u => mem u generator_unqualified) emitted_unqualified_uses = true.
+Proof. vm_compute. reflexivity. Qed.
+
+Lemma emitted_uses_no_underscore :
+  forallb (fun u => negb (ends_underscore u)) emitted_unqualified_uses = true.
+Proof. vm_compute. reflexivity. Qed.
+
+Theorem type_ident_never_captures :
+  forall n, ~ In (type_ident n) emitted_unqualified_uses.
+Proof.
+  intros n H. unfold type_ident in H. cbv zeta in H.
+  destruct (is_used_unqualified (escape_ident (to_pascal_case n))) eqn:E.
+  - pose proof (proj1 (forallb_forall _ _) emitted_uses_no_underscore _ H) as K.
+    cbv beta in K. rewrite ends_underscore_app in K. discriminate.
+  - pose proof (proj1 (forallb_forall _ _) emitted_uses_covered _ H) as K.
+    cbv beta in K. unfold is_used_unqualified in E. rewrite E in K. discriminate.
+Qed.
+
+(* and the escape is invisible where it is not needed, and a plain suffix where it is *)
+Lemma type_ident_cases n :
+  let i := escape_ident (to_pascal_case n) in
+  (mem i generator_unqualified = false /\ type_ident n = i) \/
+  (mem i generator_unqualified = true /\ type_ident n = (i ++ "_")%string).
+Proof.
+  cbv zeta. unfold type_ident, is_used_unqualified. cbv zeta.
+  destruct (mem (escape_ident (to_pascal_case n)) generator_unqualified); [right | left]; auto.
+Qed.
+
+(* ------------------------------------------------------------------ items of the generated module
+   The module of one interface defines, side by side in one namespace: the proxy trait, the error enum
+   (always, a stub when the interface has no errors), one `<Method>Output` struct per method with
+   outputs, and the custom types.  OPEN FINDING C15.generated_item_name_collision: nothing keeps a
+   custom type from being called like one of the names the generator invents; the module then defines
+   the name twice (E0428).  `item_names_distinct` is what the correspondence check predicts rustc's
+   verdict with on every generated interface. *)
+Definition module_item_names (g : gmodule) : list string :=
+  g_trait g :: g_error_ty g :: map gs_name (g_structs g) ++ map ge_name (g_enums g).
+
+Fixpoint nodupb (l : list string) : bool :=
+  match l with
+  | [] => true
+  | x :: r => negb (mem x r) && nodupb r
+  end.
+
+Definition item_names_distinct (i : iface) : bool := nodupb (module_item_names (codegen i)).
+
+Lemma nodupb_NoDup l : nodupb l = true -> NoDup l.
+Proof.
+  induction l as [|x r IH]; intros H; [constructor|].
+  cbn [nodupb] in H. apply andb_prop in H. destruct H as [Hx Hr].
+  constructor; [|exact (IH Hr)].
+  intros Hin. apply mem_In in Hin. rewrite Hin in Hx. discriminate.
+Qed.
+
+Theorem item_names_distinct_sound :
+  forall i, item_names_distinct i = true -> NoDup (module_item_names (codegen i)).
+Proof. intros i. apply nodupb_NoDup. Qed.
+
+(* three legal interfaces, one per invented name *)
+Definition w_collide (t : string) : iface :=
+  {| i_name := "org.example.side";
+     i_methods := [meth "Run" [fld "cmd" TString] [fld "result" (TCustom t)]];
+     i_types := [CObject t [fld "code" TInt] []];
+     i_errors := [{| e_name := "Bad"; e_fields := []; e_comments := [] |}];
+     i_comments := [] |}.
+
+Theorem item_names_refuted :
+  Forall (fun t => iface_legal (w_collide t) = true /\ item_names_distinct (w_collide t) = false)
+         ["Side"; "SideError"; "RunOutput"]
+  /\ item_names_distinct (w_collide "Config") = true /\ item_names_distinct w_iface = true.
+Proof. split; [repeat constructor; vm_compute; reflexivity | split; vm_compute; reflexivity]. Qed.
